@@ -4,9 +4,10 @@ F = "rpyc/core/protocol.py::Connection."
 SOCK = "self._channel.stream.sock"
 # everything a message exchange on this connection may touch (frame of the I/O paths)
 CONN_IO_OK = ["self._send_queue", "self._sendlock.held", SOCK + ".outbuf", SOCK + ".inbuf", "self._seqcounter.nxt",
-              "self._local_objects._dict", "self._request_callbacks", "self._closed", "self._last_traceback"]
+              "self._local_objects._dict", "self._request_callbacks", "self._closed", "self._last_traceback",
+              "self._proxy_cache._dict", "$refcounts"]
 # ... plus, when the connection goes down (transport failure, or the peer's close request was served): the teardown
-TEARDOWN = ["self._proxy_cache._dict", "self._netref_classes_cache", "self._remote_root", "self._local_root", "self._HANDLERS"]
+TEARDOWN = ["self._netref_classes_cache", "self._remote_root", "self._local_root", "self._HANDLERS"]
 CONN_IO_DEAD = CONN_IO_OK + [SOCK, SOCK + ".shut_attempted", SOCK + ".closed", SOCK + ".failed"]
 CONN_IO = CONN_IO_DEAD + TEARDOWN
 # an exceptional exit: either the transport is still open (same socket object) or it died and the stream is closed
@@ -16,7 +17,7 @@ MAYBE_DEAD = [{"label": "transport open", "sets": {"self._channel.stream.sock": 
 # ... or, on paths that dispatch incoming messages, the whole connection went down (the peer's close request)
 MAYBE_DOWN = [MAYBE_DEAD[0], {"label": "connection down", "sets": {"self._channel.stream.sock": "ClosedFile"}, "modifies": CONN_IO}]
 # class invariant of a connection used throughout: every slot of the table of lent objects is well formed
-TABLE_OK = "all_slots_ok(self._local_objects._dict)"
+TABLE_OK = "all_slots_ok(self._local_objects._dict) and cache_ok(self._proxy_cache._dict, self)"
 OPEN = [SOCK + " is not ClosedFile", "not %s.failed" % SOCK]
 P = ["C08", "C12", "C01", "C19"]
 
@@ -124,7 +125,21 @@ def register_dispatch(S):
                                                  "self._seqcounter.nxt == old(self._seqcounter.nxt) + 1", P8 + ["C13"])},
                raises={}, modifies=["self._seqcounter.nxt"])
 
-    # the handler table call `self._HANDLERS[handler](self, *args)` abstracted: at most one handler runs, once
+    # the handler table call `self._HANDLERS[handler](self, *args)` abstracted: at most one handler runs, once.
+    # A handler runs arbitrary code of the service, which may call back into the peer (nested requests, to any depth,
+    # C01): so it may touch everything a message exchange on this connection touches, preserving the class invariants
+    # (each nested exchange is itself one of the functions under contract), and it leaves the send machinery quiescent.
+    CS = "conn._channel.stream.sock"
+    RUNS = ["known_handler(handler)", "not is_close_handler(handler)"]
+    HR_MOD = ["conn._last_traceback", "conn._local_objects._dict", "conn._proxy_cache._dict", "$refcounts",
+              "conn._seqcounter.nxt", "conn._request_callbacks", CS + ".outbuf", CS + ".inbuf"]
+    HR_INV = ["implies(old(all_slots_ok(conn._local_objects._dict)), all_slots_ok(conn._local_objects._dict))",
+              "implies(old(cache_ok(conn._proxy_cache._dict, conn)), cache_ok(conn._proxy_cache._dict, conn))",
+              "conn._seqcounter.nxt >= old(conn._seqcounter.nxt)"]
+    HR_DOWN = HR_MOD + ["conn._closed", "conn._netref_classes_cache", "conn._remote_root", "conn._local_root", "conn._HANDLERS",
+                        CS + ".shut_attempted", CS + ".closed", CS + ".failed"]
+    HR_INV_DOWN = HR_INV + ["implies(not conn._closed, conn._local_root is old(conn._local_root))",
+                            "implies(old(conn._closed), conn._closed)"]
     S.external("handler_run", params={"conn": "obj:Connection", "handler": "val", "self_arg": "any", "args": "val"},
                result="val",
                note="table dispatch to one of the 20 request handlers: unknown/unhashable handler number or wrong "
@@ -133,14 +148,15 @@ def register_dispatch(S):
                outcomes=[
                    {"label": "unknown handler", "raise": "KeyError", "when": ["not known_handler(handler)"]},
                    {"label": "not callable that way", "raise": "TypeError"},
-                   {"label": "returns", "when": ["known_handler(handler)", "not is_close_handler(handler)"],
-                    "events": [("HandlerRun", "handler", "args")],
-                    "modifies": ["conn._last_traceback", "conn._local_objects._dict"],
-                    "assume": ["implies(old(all_slots_ok(conn._local_objects._dict)), all_slots_ok(conn._local_objects._dict))"]},
-                   {"label": "raises", "raise": "*", "when": ["known_handler(handler)", "not is_close_handler(handler)"],
-                    "events": [("HandlerRun", "handler", "args")],
-                    "modifies": ["conn._last_traceback", "conn._local_objects._dict"],
-                    "assume": ["implies(old(all_slots_ok(conn._local_objects._dict)), all_slots_ok(conn._local_objects._dict))"]},
+                   {"label": "returns", "when": RUNS, "events": [("HandlerRun", "handler", "args")], "modifies": HR_MOD, "assume": HR_INV},
+                   {"label": "raises", "raise": "*", "when": RUNS, "events": [("HandlerRun", "handler", "args")],
+                    "modifies": HR_MOD, "assume": HR_INV},
+                   # ... and the connection may have gone down meanwhile (a nested request of the handler met a dead transport
+                   # and the handler swallowed the error; or nested traffic carried the peer's close request)
+                   {"label": "returns, connection went down", "when": RUNS, "events": [("HandlerRun", "handler", "args")],
+                    "sets": {"conn._channel.stream.sock": "ClosedFile"}, "modifies": HR_DOWN, "assume": HR_INV_DOWN},
+                   {"label": "raises, connection went down", "raise": "*", "when": RUNS, "events": [("HandlerRun", "handler", "args")],
+                    "sets": {"conn._channel.stream.sock": "ClosedFile"}, "modifies": HR_DOWN, "assume": HR_INV_DOWN},
                    # the peer's close request: Connection._handle_close -> _cleanup (its contract: closed, clean, hook once)
                    {"label": "close handler", "when": ["is_close_handler(handler)"], "events": [("HandlerRun", "handler", "args")],
                     "sets": {"conn._channel.stream.sock": "ClosedFile"},
@@ -184,7 +200,8 @@ def register_dispatch(S):
                                          "variants": MAYBE_DOWN},
                },
                modifies=["self._send_queue", "self._sendlock.held", SOCK + ".outbuf", SOCK + ".inbuf", "self._closed",
-                         "self._last_traceback", "self._local_objects._dict"])
+                         "self._last_traceback", "self._local_objects._dict", "self._proxy_cache._dict", "$refcounts",
+                         "self._seqcounter.nxt", "self._request_callbacks"])
 
     S.contract(F + "_seq_request_callback",
                params={"self": "obj:Connection", "msg": "val", "seq": "val", "is_exc": "bool", "obj": "val"},
